@@ -114,14 +114,14 @@ inline std::string jesc(const std::string &s)
     return o;
 }
 
-struct Failure { std::string prop, casestr, why, desc; };
+struct Failure { std::string prop, casestr, why, desc; std::vector<std::string> history; /* cases executed in this process right before the failing one */ };
 
 // ---- fork-per-case ------------------------------------------------------------------------
 struct Shared {
     int status;          // 0 = not finished, 1 = ok, 2 = property failed
     int nontrivial;
     int nclasses;
-    char classes[16][48];
+    char classes[24][64];
     char why[3000];
 };
 inline Shared *shared_page()
@@ -149,7 +149,7 @@ inline bool run_forked(Body body, const Case &c, Ctx &ctx)
         bool ok = body(c, cc);
         sh->nontrivial = cc.nontrivial;
         sh->nclasses = 0;
-        for (auto *n : cc.classes) { if (sh->nclasses < 16) { strncpy(sh->classes[sh->nclasses], n, 47); sh->nclasses++; } }
+        for (auto *n : cc.classes) { if (sh->nclasses < 24) { strncpy(sh->classes[sh->nclasses], n, 63); sh->nclasses++; } }
         strncpy(sh->why, cc.why.c_str(), sizeof(sh->why) - 1);
 #if defined(__SANITIZE_ADDRESS__)
         // object lifetimes: everything the case allocated through the library must be released by now
@@ -375,6 +375,8 @@ inline int harness_main(int argc, char **argv, const char *harness, std::vector<
         rc::detail::TestMetadata md; md.id = p.name; md.description = p.name;
         bool seen_fail = false;
         Case lastfail; std::string lastwhy;
+        std::vector<Case> recent; std::vector<std::string> lasthist; // in-process runs: the executions preceding a failure (a failure may depend on earlier calls)
+        const size_t HIST = 64; size_t rpos = 0;
         auto gen = p.gen();
         auto result = rc::detail::checkTestable([&] {
             Case c; c.prop = p.name; c.v = *gen;
@@ -383,12 +385,17 @@ inline int harness_main(int argc, char **argv, const char *harness, std::vector<
             bool ok = ((p.forked || o.forkall) && !o.nofork) ? run_forked(p.body, c, ctx) : p.body(c, ctx);
             if (!ok && o.crash_only && !crashy(ctx.why)) { ok = true; stats().classes["value-mismatch-not-counted-here"]++; }
             if (seen_fail) { stats().shrink_evals++; progress() = progress() + 1; } else account(p, c, ctx);
-            if (!ok) { seen_fail = true; lastfail = c; lastwhy = ctx.why; }
+            if (!ok) {
+                seen_fail = true; lastfail = c; lastwhy = ctx.why; lasthist.clear();
+                for (size_t q = 0; q < recent.size(); q++) lasthist.push_back(recent[(rpos + q) % recent.size()].str()); // oldest first
+            }
+            if (recent.size() < HIST) { recent.push_back(c); rpos = 0; } else { recent[rpos] = c; rpos = (rpos + 1) % HIST; }
             RC_ASSERT(ok);
         }, md, params);
         if (seen_fail) {
             Failure f; f.prop = p.name; f.casestr = lastfail.str(); f.why = lastwhy;
             f.desc = p.describe ? p.describe(lastfail) : lastfail.str();
+            if (!(p.forked || o.forkall) || o.nofork) f.history = lasthist;
             failures.push_back(f);
             fprintf(stderr, "[%s] FALSIFIED %s : %s\n   why: %s\n", harness, p.name.c_str(), f.desc.c_str(), f.why.c_str());
         } else if (!result.template is<rc::detail::SuccessResult>()) {
@@ -425,7 +432,9 @@ inline int harness_main(int argc, char **argv, const char *harness, std::vector<
         f << "},\"failures\":[";
         for (size_t i = 0; i < failures.size(); i++) {
             auto &x = failures[i];
-            f << (i ? "," : "") << "{\"prop\":\"" << jesc(x.prop) << "\",\"case\":\"" << jesc(x.casestr) << "\",\"why\":\"" << jesc(x.why) << "\",\"desc\":\"" << jesc(x.desc) << "\"}";
+            f << (i ? "," : "") << "{\"prop\":\"" << jesc(x.prop) << "\",\"case\":\"" << jesc(x.casestr) << "\",\"why\":\"" << jesc(x.why) << "\",\"desc\":\"" << jesc(x.desc) << "\",\"history\":[";
+            for (size_t q = 0; q < x.history.size(); q++) f << (q ? "," : "") << "\"" << jesc(x.history[q]) << "\"";
+            f << "]}";
         }
         f << "]}\n";
     }
